@@ -7,7 +7,7 @@ import numpy as np
 from hypothesis import strategies as st
 
 from .. import gen, sim, gridref
-from ..harness import Sub, Violation, Inconclusive, run_world, crash_is_violation
+from ..harness import Sub, Violation, Inconclusive, run_world, crash_is_violation, interpreted_kernels
 from ..oracles import bspl, advect
 
 PROPERTY = "C16"
@@ -58,6 +58,8 @@ def kernel_pred(c):
     from pygyro.poisson.poisson_solver import DensityFinder
     from pygyro.initialisation.constants import Constants
     radii = np.array([0.5, 3.0, 7.3, 12.0])
+    if c["seed"] % 2 and interpreted_kernels():
+        radii = np.array([1, 3, 7, 12])            # radial coordinates stored as integers (interpreted kernels only)
     consts = Constants()
     with crash_is_violation("C16:build", "building the DensityFinder"):
         df = DensityFinder(6, basis, [radii, None, None, v], consts)
@@ -69,7 +71,7 @@ def kernel_pred(c):
                             "interpolator of its own velocity space by %.3e" % (np.abs(wd - w).max() if wd.shape == w.shape else np.inf))
     tab = getattr(df, "_fEq", None)
     if tab is not None:
-        want_tab = advect.f_eq(radii[:, None], v[None, :], advect.const_dict(consts))
+        want_tab = advect.f_eq(radii.astype(float)[:, None], v[None, :], advect.const_dict(consts))
         if np.shape(tab) != want_tab.shape or not (np.abs(tab - want_tab) <= 1e-13 * np.abs(want_tab) + 1e-300).all():
             raise Violation("C16:kernel:finder-equilibrium", "DensityFinder's equilibrium table differs from f_eq(r, v) on its own "
                             "(r, v) grid")
